@@ -28,7 +28,7 @@ impl Observer for C03Obs {
             Err(_) => "?".into(),
         };
         for (code, detail) in t.post_broken {
-            let sig = format!("C03 {} after {} [{}] {}", code, t.op.name(), cls, if t.out.ok { "ok" } else { "err" });
+            let sig = format!("C03 {} after {} {} [{}]", code, t.op.name(), if t.out.ok { "ok" } else { "err" }, cls);
             vio(
                 &sig,
                 || format!("after [{}] the call {} returned {} and left a malformed namespace: {}", t.space.history_text(t.pre_idx), t.op.render(), t.out.brief(), detail),
@@ -62,7 +62,7 @@ pub fn run(ctx: &Ctx) -> i32 {
         return replay(ctx, p);
     }
     let obs = C03Obs { checked: AtomicU64::new(0), listings: AtomicU64::new(0), samples: Mutex::new(vec![]) };
-    let names: Vec<&str> = ctx.tier.pick(vec!["H-3", "D-3", "C-2"], vec!["H-4", "D-3", "C-3", "B-2"]);
+    let names: Vec<&str> = ctx.tier.pick(vec!["H-2", "D-3", "C-2", "R-2"], vec!["H-3", "D-3", "C-3", "B-2", "R-3"]);
     let mut per_cfg = vec![];
     let (mut states, mut trans) = (0u64, 0u64);
     let mut all_fix = true;
